@@ -220,6 +220,10 @@ def run(tier):
     sub("window_partition", "SELECT COUNT(a) OVER (PARTITION BY (SELECT id FROM users)) FROM t1", ["t1", "users"], ["a", "id"], ["COUNT"])
     sub("agg_order_by", "SELECT STRING_AGG(name, ',' ORDER BY (SELECT k1 FROM t3)) FROM t1", ["t1", "t3"], ["name", "k1"], ["STRING_AGG"])
     sub("case_in_order", "SELECT a FROM t1 ORDER BY CASE WHEN EXISTS (SELECT 1 FROM orders WHERE id = 1) THEN a ELSE b END", ["t1", "orders"], ["a", "id", "b"], [])
+    # an operator of the JSON / cast level applied to its left operand: everything written to the left stays in the tree
+    sub("json_cast", "SELECT id FROM orders WHERE amount ->> 'k' :: numeric > 100", ["orders"], ["id", "amount"], [])
+    sub("json_cast_func", "SELECT f(name) ->> 'city' :: text FROM users", ["users"], ["name"], ["f"])
+    sub("json_cast_subquery", "SELECT (SELECT b FROM t2) -> 'x' :: text FROM t1", ["t1", "t2"], ["b"], [])
     # the same chains as statements of the reference grammar (qgen.flat_chain: distinct names in the first operands),
     # in every layout: oracle here, and below the MODEL correspondences on them (never sampled away, no size limit)
     kc = 160 if quick else 400
